@@ -415,7 +415,7 @@ func (p *Pollard) Verify(delHashes []Hash, proof Proof, remember bool) error {
 		return err
 	}
 
-	_, rootCandidates, err := calculateHashes(p.NumLeaves, delHashes, proof)
+	intermediate, rootCandidates, err := calculateHashes(p.NumLeaves, delHashes, proof)
 	if err != nil {
 		return err
 	}
@@ -424,10 +424,20 @@ func (p *Pollard) Verify(delHashes []Hash, proof Proof, remember bool) error {
 			"but have %d deletions", len(delHashes))
 	}
 
+	// A calculated root has to match the root of the tree it was calculated in.
+	candidatePositions := calculatedRootPositions(p.NumLeaves, intermediate)
+	if len(candidatePositions) != len(rootCandidates) {
+		return fmt.Errorf("Pollard.Verify fail. Calculated %d roots at %d root positions",
+			len(rootCandidates), len(candidatePositions))
+	}
+	rootPositions := RootPositions(p.NumLeaves, TreeRows(p.NumLeaves))
+
 	rootMatches := 0
 	for i := range p.Roots {
-		if len(rootCandidates) > rootMatches &&
-			p.Roots[len(p.Roots)-(i+1)].data == rootCandidates[rootMatches] {
+		idx := len(p.Roots) - (i + 1)
+		if len(rootCandidates) > rootMatches && idx < len(rootPositions) &&
+			rootPositions[idx] == candidatePositions[rootMatches] &&
+			p.Roots[idx].data == rootCandidates[rootMatches] {
 			rootMatches++
 		}
 	}
@@ -448,6 +458,20 @@ func (p *Pollard) Verify(delHashes []Hash, proof Proof, remember bool) error {
 	}
 
 	return nil
+}
+
+// calculatedRootPositions returns the positions of the roots that are in the
+// intermediate nodes returned by calculateHashes. They are in the same order
+// as the root hashes returned by calculateHashes.
+func calculatedRootPositions(numLeaves uint64, intermediate hashAndPos) []uint64 {
+	positions := make([]uint64, 0, numRoots(numLeaves))
+	for _, pos := range intermediate.positions {
+		if isRootPosition(pos, numLeaves) {
+			positions = append(positions, pos)
+		}
+	}
+
+	return positions
 }
 
 // checkNoEmptyHashes returns an error if any of the hashes to be proven or any
